@@ -37,6 +37,8 @@ pub struct ObsTap<'q, E: ExtConfig> {
     mk: &'q dyn Fn(Option<u64>, bool) -> ExternalClient<E>,
     qa: &'q mut QA,
     old_apps: Vec<usize>,
+    /// an application ciphertext of ANOTHER group (the previous history) and its epoch
+    foreign: Option<(mls_rs::MlsMessage, u64)>,
     pub attached: u64,
     pub compared: u64,
     pub restored: u64,
@@ -159,6 +161,25 @@ impl<'q, C: MlsConfig, E: ExtConfig> Tap<C> for ObsTap<'q, E> {
                 }
             }
         }
+        // a ciphertext of another group: refused for its group id whatever the window (`adm … 0 …` rows)
+        if let Some((fm, fe)) = self.foreign.clone() {
+            if rng.chance(1, 3) {
+                for o in self.obs.iter_mut().filter(|o| !o.lost) {
+                    let obs_epoch = o.group.group_context().epoch;
+                    let r = std::panic::catch_unwind(std::panic::AssertUnwindSafe(|| o.group.process_incoming_message(fm.clone())));
+                    self.deliveries += 1;
+                    match r {
+                        Err(_) => out.push(fail("observer panicked on a ciphertext of another group".into())),
+                        Ok(res) => {
+                            self.qa.put(&format!("adm {obs_epoch} {} 0 {fe} app priv", o.jitter), if res.is_ok() { "ok" } else { "err" });
+                            if res.is_ok() {
+                                out.push(fail("observer admitted a ciphertext of another group".into()));
+                            }
+                        }
+                    }
+                }
+            }
+        }
         // application content framed as a PublicMessage, signed and MACed by a current member (insider): the wire-format test of
         // `check_metadata` is then the only thing that stops it, for observers and members alike
         if rng.chance(1, 2) {
@@ -235,11 +256,12 @@ pub fn run(o: &Opts) -> i32 {
     let mut failing = vec![];
     let (mut attached, mut compared, mut restored, mut deliveries) = (0, 0, 0, 0);
     // window rows that do not depend on a history: boundaries around every jitter / epoch combination
+    let mut foreign: Option<(mls_rs::MlsMessage, u64)> = None;
     for h in 0..n {
         let hseed = seedgen.next();
         let mkc = |s: &Setup, hd: &Handles, id, sk| mk_client(s, hd, id, sk);
         let mke = |j: Option<u64>, cache: bool| ext_client(j, cache);
-        let mut tap = ObsTap { obs: vec![], mk: &mke, qa: &mut qa, old_apps: vec![], attached: 0, compared: 0, restored: 0, deliveries: 0 };
+        let mut tap = ObsTap { obs: vec![], mk: &mke, qa: &mut qa, old_apps: vec![], foreign: foreign.clone(), attached: 0, compared: 0, restored: 0, deliveries: 0 };
         let mut treeqa = QA::create(&dir, "c16-tree");
         {
             let mut hist = Hist {
@@ -262,6 +284,9 @@ pub fn run(o: &Opts) -> i32 {
             hist.run();
             let rep = std::mem::take(&mut hist.rep);
             let oplog = std::mem::take(&mut hist.w.oplog);
+            if let Some(m) = hist.w.msgs.iter().rev().find(|m| m.kind == "app") {
+                foreign = Some((m.msg.clone(), m.epoch));
+            }
             let rel: Vec<&Failure> = rep.failures.iter().filter(|f| f.prop == "C16").collect();
             if !rel.is_empty() && failing.len() < 5 {
                 let mut l = vec![format!("history {h} seed {hseed}")];
